@@ -240,31 +240,34 @@ abel.rbasex.rbasex_transform(Q, basis_dir=d)
 
 
 def strace_guard(root):
+    """In-place write syscalls per saved basis file.  A file that is written
+    under another name and then renamed onto the .npy name counts as saved
+    atomically (no in-place write)."""
     d = os.path.join(root, 'strace')
-    os.makedirs(d, exist_ok=True)
+    shutil.rmtree(d, ignore_errors=True)
+    os.makedirs(d)
     log = os.path.join(root, 'strace.log')
     if shutil.which('strace') is None:
         return None, 'strace not available'
     env = dict(os.environ, PYTHONPATH=vlib.REPO)
-    p = subprocess.run(['strace', '-f', '-e', 'trace=openat,write,close', '-o', log, H.PY, '-W', 'ignore', '-c',
-                        STRACE_SCRIPT, d], env=env, stdout=subprocess.PIPE, stderr=subprocess.PIPE, timeout=600)
+    p = subprocess.run(['strace', '-f', '-y', '-e', 'trace=write,rename,renameat,renameat2', '-o', log, H.PY, '-W',
+                        'ignore', '-c', STRACE_SCRIPT, d], env=env, stdout=subprocess.PIPE, stderr=subprocess.PIPE,
+                       timeout=600)
     if p.returncode != 0 or not os.path.exists(log):
         return None, 'strace run failed: ' + p.stderr.decode()[-300:]
-    fds = {}
     counts = {}
     for line in open(log, errors='replace'):
-        m = re.match(r'(\d+)\s+openat\(.*?"([^"]*\.npy)", ([A-Z_|]+).*\)\s*=\s*(\d+)', line)
-        if m and 'O_WRONLY' in m.group(3) or (m and 'O_RDWR' in m.group(3)):
-            fds[(m.group(1), m.group(4))] = os.path.basename(m.group(2))
-            counts.setdefault(os.path.basename(m.group(2)), [])
-            continue
-        m = re.match(r'(\d+)\s+write\((\d+), .*\)\s*=\s*(\d+)', line)
-        if m and (m.group(1), m.group(2)) in fds:
-            counts[fds[(m.group(1), m.group(2))]].append(int(m.group(3)))
-            continue
-        m = re.match(r'(\d+)\s+close\((\d+)\)', line)
+        # -y annotates descriptors with their path (also after dup): write(5</dir/x.npy>, ..., N) = N
+        m = re.match(r'\d+\s+write\(\d+<([^>]*\.npy)>, .*\)\s*=\s*(\d+)', line)
         if m:
-            fds.pop((m.group(1), m.group(2)), None)
+            counts.setdefault(os.path.basename(m.group(1)), []).append(int(m.group(2)))
+            continue
+        m = re.match(r'\d+\s+rename(?:at2?)?\(.*"([^"]*\.npy)"[^"]*\)\s*=\s*0', line)
+        if m:
+            counts.setdefault(os.path.basename(m.group(1)), [])
+    for f in os.listdir(d):
+        if f.endswith('.npy'):
+            counts.setdefault(f, [])
     return counts, None
 
 
@@ -272,7 +275,7 @@ def zero_gap_probe(env, worker, rng):
     """Failing schedule of the refuted three-chunk theorem, as a file: header,
     zero gap, rest of the payload.  Used when a save is seen to need > 2 writes."""
     ad = H.ADAPTERS['daun'](env)
-    call = dict(n=8, degree=1, reg=None, direction='inverse', bd=1, dr=1.0, seed=5)
+    call = dict(n=8, degree=1, reg=None, direction='forward', bd=1, dr=1.0, seed=5)
     good = ad.good_file((8, 1))
     k = 128 + (len(good) - 128) // 2
     data = good[:128] + b'\x00' * (k - 128) + good[k:]
@@ -282,6 +285,28 @@ def zero_gap_probe(env, worker, rng):
     out = ad.call(call)
     ref = worker.ask('daun', dict(call, bd=None))
     return out[0] == 'ok' and ref[0] == 'ok' and not H.same(out[1], ref[1])
+
+
+CHUNK_SNIPPET = '''import sys, os, shutil
+sys.path.insert(0, '/verif/tools')
+import numpy as np
+from props import cache_harness as H
+from props import C08
+# 1. the library's own saves: write syscalls issued on the .npy file itself (strace)
+root = '/var/tmp/pyabel-verif-replay-%d' % os.getpid()
+os.makedirs(root)
+counts, err = C08.strace_guard(root)
+print('in-place write syscalls per saved file:', counts or err)
+many = [f for f, c in (counts or {}).items() if len(c) > 2]
+# 2. the content the schedule A:trunc,hdr,bulk  B:trunc,hdr  A:tail  leaves behind (header, zero gap, tail)
+env = H.Env(os.path.join(root, 'main')); w = H.LocalFresh(os.path.join(root, 'fresh'))
+changed = C08.zero_gap_probe(env, w, np.random.default_rng(0))
+env.close(); w.close(); shutil.rmtree(root, ignore_errors=True)
+print('zero-gap file is loaded and changes the result:', changed)
+bad = bool(many) and changed
+print('property C08 (concurrent writers)', 'FAILS' if bad else 'holds')
+sys.exit(1 if bad else 0)
+'''
 
 
 # --------------------------------------------------------------------------
@@ -494,7 +519,7 @@ def run(ctx):
                                 'a basis file is saved with %d write syscalls (%r): the interleaving of two writers and a reader '
                                 'of the refuted three-chunk theorem exists; the zero-gap file it produces is loaded and changes the result'
                                 % (max(len(counts[f]) for f in too_many), too_many),
-                                'import sys; sys.exit(1)', dict(counts=counts)))
+                                CHUNK_SNIPPET, dict(counts=counts)))
             else:
                 broken.append(('strace', 'more than two writes per file: %r' % too_many))
         # search: verdicts
@@ -566,7 +591,8 @@ def run(ctx):
         ad, call, key, good, rows, sh = sweeps[mod]
         samples.append(dict(module=mod, call=repr(call), file=ad.fname(key), file_bytes=len(good),
                             outcomes_first_second=[(kind, k, c1, c2) for kind, k, d, c1, rs, c2 in rows][:8]))
-    ctx.cov.update(obligations=len(pr['theorems']) + n_obl, discharged=pr['discharged'] + ctx.cov['traces_validated_against_impl'],
+    ctx.cov.update(obligations=len(pr['theorems']) + ctx.cov['correspondence_items'],
+                   discharged=pr['discharged'] + ctx.cov['traces_validated_against_impl'],
                    evaluations=n_eval, distinct_nontrivial=len(dist),
                    rule='codec: numpy.load on every prefix of files saved by numpy.save for a list of shapes + a garbage stream; handlers: '
                         'for each caching method the file its call loads is replaced by every (quick: sampled) prefix, garbage, zip prefix, '
